@@ -193,6 +193,26 @@ class MetricTranslator:
                 continue
             if isinstance(s, ast.Return):
                 return self._expr(s.value, env, ops, obl, fi, depth)
+            # a metric that stores into one of its arguments changes the caller's vectors (and its own later results)
+            params = set(fi.params)
+            for st0 in fi.node.body:  # plain aliases of an argument (`dist = x`)
+                if isinstance(st0, ast.Assign) and len(st0.targets) == 1 and isinstance(st0.targets[0], ast.Name) \
+                        and isinstance(st0.value, ast.Name) and st0.value.id in params:
+                    params.add(st0.targets[0].id)
+            for x in ast.walk(s):
+                tgts = []
+                if isinstance(x, ast.Assign):
+                    tgts = x.targets
+                elif isinstance(x, ast.AugAssign):
+                    tgts = [x.target]
+                for t in tgts:
+                    base = t
+                    while isinstance(base, ast.Subscript):
+                        base = base.value
+                    if isinstance(t, ast.Subscript) and isinstance(base, ast.Name) and base.id in params:
+                        raise MetricViolation(f"{fi.name}:{x.lineno}: '{unparse(x)[:60]}' stores into the argument "
+                                              f"'{base.id}': the value of the metric is no longer a function of its arguments "
+                                              "(the caller's vector is overwritten)")
             raise AnalysisError(f"{fi.name}:{s.lineno}: statement outside the metric whitelist: {unparse(s)[:80]}")
         return None
 
@@ -441,7 +461,19 @@ def normal_form(e, ops: Ops):
     return _lin_S(e, ops)
 
 
+_EQ_CACHE: Dict[Tuple[str, str, str], bool] = {}
+
+
 def equal_forms(a, b, ops: Ops) -> bool:
+    """Memoised on the expressions themselves (content, not identity): the same comparison is asked for by several
+    properties and, in the regression tools, for hundreds of trees that differ in one function."""
+    key = (sp.srepr(a), sp.srepr(b), ops.domain)
+    if key not in _EQ_CACHE:
+        _EQ_CACHE[key] = _equal_forms(a, b, ops)
+    return _EQ_CACHE[key]
+
+
+def _equal_forms(a, b, ops: Ops) -> bool:
     a, b = normal_form(a, ops), normal_form(b, ops)
     if a == b:
         return True
